@@ -360,7 +360,7 @@ pub fn run(ctx: &Ctx) -> Outcome {
          after every call the same call is replayed on a fresh DrawTarget built from the pixels before the call with the transform and clip stack re-established (clip paths re-pushed pre-transformed under the identity); pixels must be bit-identical. Non-trivial history: at least one call changed pixels and at least one left them unchanged; distinct = hash of the history.",
     );
     let (len_lo, len_hi) = if ctx.miri { (20, 40) } else { (60, 200) };
-    let n = if ctx.miri { 64 } else { ctx.n(600, 40_000) };
+    let n = if ctx.miri { 64 } else { ctx.n(3_000, 40_000) };
     run_cases(ctx, &mut out, SubSpec { name: "histories", cases: n, exhaustive: false, max_secs: if ctx.quick() { 40. } else { 900. } }, |i, want, st| {
         let mut rng = ctx.rng("histories", i);
         let (w, h) = if ctx.miri { (rng.int(2, 8) as i32, rng.int(2, 8) as i32) } else { (rng.int(1, 24) as i32, rng.int(1, 24) as i32) };
